@@ -4,26 +4,37 @@ from vlib import std, hbuild, coq, recipes, common
 
 PID = "C29"
 META = {
-    "text": "Theorems (Properties_C29.v, closed under the global context) about the Gallina transcription of "
+    "text": "Theorems (Properties_C29.v, 18, all closed under the global context) about the Gallina transcription of "
             "HttpHdrCc::parse / packInto / setValue, httpHeaderParseQuotedString, strListGetItem (HopModel) and "
-            "httpHeaderParseInt (TokModel), with the directive-name table and special values regenerated from the code: "
-            "for ALL field values, the parsed object equals an independent first-match specification over the list of "
-            "comma-separated elements (flags, numeric directives whose argument is a non-negative int, max-stale with "
-            "its valueless form, private/no-cache with quoted arguments, unknown directives joined into `other`); an "
-            "invalid, negative or out-of-range numeric argument leaves max-age/s-maxage/min-fresh/stale-if-error absent "
-            "(max-stale falls back to its valueless form); numeric/quoted arguments are read from the element only "
-            "(the C code passes a pointer into the whole value); and parse(pack(parse v)) = parse v whenever parse "
-            "succeeds. Refuted and kept as a finding: quoted-pair handling of httpHeaderParseQuotedString "
-            "(`private=\"a\\\"b\"` yields `a`, `\\\\` yields nothing) and HTAB inside a quoted argument is rejected. "
+            "httpHeaderParseInt (TokModel), with the directive-name table, ids and special values regenerated from the "
+            "code. For ALL field values: the parse loop is a fold over the strListGetItem elements and never runs out of "
+            "fuel; numeric/quoted arguments are read from the element only although the C code passes a pointer into the "
+            "whole value (C29_argument_reads_are_local); the parsed object EQUALS an independent first-match "
+            "specification over the elements (C29_parse_exact: flags; numeric directives = first argument that is a "
+            "non-negative int that fits; max-stale = first occurrence, valueless form if its argument is not such an "
+            "int; private/no-cache = first (valid) quoted argument; unknown directives joined into `other`); an invalid, "
+            "negative or out-of-range numeric argument leaves max-age/s-maxage/min-fresh/stale-if-error absent "
+            "(C29_invalid_numeric_absent); the parsed object is well formed; packInto writes the present known "
+            "directives joined by ', ' and strListGetItem re-splits such text into exactly those elements; "
+            "parse(pack(parse v)) = parse v whenever parse succeeds and there is no unknown directive "
+            "(C29_pack_parse_roundtrip_partial). Quoted arguments: exact on plain text (C29_quoted_plain_exact_partial); "
+            "REFUTED at full strength (kept as known findings, witnesses replayed on the real code): "
+            "`private=\"a\\\"b\"` yields `a`, `\\\\` vanishes, and HTAB inside a quoted argument is rejected. "
             "Tie: extracted model vs the real HttpHdrCc/HttpHeader/StrList/HttpHeaderTools compiled from the working "
-            "tree (UBSan), 0 disagreements.",
-    "note": "Trusted: Coq kernel, extraction, gen/gen_ccnames.cc (names via operator<<, ids and special values from "
-            "HttpHdrCc.h), harness/h_cc.cc; CcModel.v is validated against the code only on the generated cases. "
-            "Interpretation: `max-stale=<invalid>` is treated as valueless max-stale (the VALUE is absent, the directive "
-            "is not), as the code documents. parse() returning false (no known directive) means the object is discarded "
-            "by HttpHeader::getCc, so the round trip is stated for successful parses. String's 64 KB limit is not modelled.",
+            "tree (UBSan), 0 disagreements; independent Python oracle (element split, first-match semantics, RFC "
+            "quoted-string, round trip incl. unknown directives) on every implementation answer.",
+    "note": "partial: the round-trip THEOREM excludes objects with unknown directives (`other` non-empty); for those "
+            "the round trip rests on the correspondence run and the oracle (which checks parse(pack(parse v)) on the "
+            "real code for every generated value). Trusted: Coq kernel, extraction, gen/gen_ccnames.cc (names via "
+            "operator<<, ids and special values from HttpHdrCc.h), harness/h_cc.cc; CcModel.v is validated against "
+            "the code only on the generated cases. Interpretation: `max-stale=<invalid>` is treated as valueless "
+            "max-stale (the VALUE is absent, the directive is not), as the code documents; strtol's leniency (leading "
+            "white space, sign, trailing garbage) is part of the modelled contract. parse() returning false (no known "
+            "directive) means the object is discarded by HttpHeader::getCc, so the round trip is stated for "
+            "successful parses. String's 64 KB limit and the defined/undefined distinction of empty Strings are not "
+            "modelled.",
     "technique": "Coq proof (fold invariants over the element list, locality lemmas for strtol / quoted-string reads past "
-                 "the element, scanner lemmas for the packed text, vm_compute over the regenerated name table) + "
+                 "the element, scanner lemmas for joined text, vm_compute over the regenerated name table) + "
                  "extracted-model differential correspondence + independent Python oracle on the implementation's answers",
 }
 
